@@ -1,6 +1,7 @@
 package harness
 
 import (
+	"bytes"
 	"fmt"
 
 	"github.com/ulikunitz/lz"
@@ -11,9 +12,20 @@ import (
 // RunInputs is the family of run inputs: byte value x run length x non-run
 // prefix x suffix.
 func RunInputs(lengths []int, values []byte) InputSet {
-	return InputSet{fmt.Sprintf("runs c^r, c in %v, r in %v, prefix in {'',x,xy,xyz}, suffix in {'',z} (x,y,z != c)", values, lengths), func(f func([]byte)) {
+	return InputSet{fmt.Sprintf("runs c^r, c in %v, r in %v, prefix in {'',x,xy,xyz}, suffix in {'',z} (x,y,z != c); two runs c^r1 x c^r2 x with (r1,r2) in {(33,62),(40,70),(33,97),(65,64)}", values, lengths), func(f func([]byte)) {
 		for _, c := range values {
 			other := []byte{c ^ 0x55, c ^ 0x33, c ^ 0x0f}
+			// two runs of the same byte, each followed by the same other byte: the suffixes of the second run sort
+			// next to suffixes of the first one
+			for _, rr := range [][2]int{{33, 62}, {40, 70}, {33, 97}, {65, 64}} {
+				for _, x := range other[:2] {
+					s := bytes.Repeat([]byte{c}, rr[0])
+					s = append(s, x)
+					s = append(s, bytes.Repeat([]byte{c}, rr[1])...)
+					s = append(s, x)
+					f(s)
+				}
+			}
 			for _, r := range lengths {
 				for pl := 0; pl <= 3; pl++ {
 					for sl := 0; sl <= 1; sl++ {
